@@ -736,6 +736,16 @@ func C19(c *core.Ctx) {
 			c.Decide(g.OK && g.PerLit[0] > 0, "R19.7", "log-entry-applied-to-its-owner", c.Pos(applies[0]), "Apply is reachable only when the content's ExitRouter is the router whose log was fetched", "processPrefixData applies a fetched log entry to whichever router its content names (PrefixTable.Apply picks the table by ExitRouter) while the sequence number is recorded for the router it was fetched from: one entry of X's log that names Y replaces the prefix set held for Y, and Y's own, fully consumed log never corrects it — the routes installed for Y's prefixes no longer mirror what Y announced")
 		}
 	}
+
+	// ---- R19.8 the prefix table and the route installer identify a prefix by its name. They
+	// key their maps by Name.Hash() and never compare the stored name: announcing, withdrawing
+	// or installing one of two prefixes with equal hash acts on the other.
+	{
+		n := hashKeyRule(c, "R19.8", []string{"dv/table", "dv/dv"}, func(id string) bool {
+			return strings.Contains(id, "PrefixTable") || strings.Contains(id, "dv/table.Fib.") || strings.Contains(id, "fibUpdate")
+		}, "a prefix announced by a router is replaced or withdrawn by another prefix's operation, at the router and at every peer that replays its log, and the installer registers no route for it")
+		c.Floor("R19.8", "maps of the prefix table and the route installer indexed by a name's hash", n, 1)
+	}
 }
 
 func containsStr(xs []string, x string) bool {
